@@ -1157,6 +1157,67 @@ func runC20(p *an.Prog, r *an.Run, tier string) {
 			if !okDef {
 				bad = append(bad, "the default keep-alive period is not store.KeepaliveInterval")
 			}
+			// the default replaces the configured interval only where that is zero (the test inverted: a configured
+			// interval is ignored and an unset one stays 0, which time.Tick rejects)
+			type cand struct {
+				v ssa.Value
+				b *ssa.BasicBlock
+				e int // phi edge index, -1 for a return
+			}
+			var cands []cand
+			var expandP func(v ssa.Value, depth int)
+			seenP := map[ssa.Value]bool{}
+			expandP = func(v ssa.Value, depth int) {
+				if seenP[v] || depth > 3 {
+					return
+				}
+				seenP[v] = true
+				switch x := v.(type) {
+				case *ssa.Phi:
+					for i, e := range x.Edges {
+						cands = append(cands, cand{e, x.Block().Preds[i], i})
+						expandP(e, depth+1)
+					}
+				case *ssa.Call:
+					if callee := x.Call.StaticCallee(); callee != nil && p.InRepo(callee) {
+						an.AllInstrs(callee, func(in2 ssa.Instruction) {
+							if ret, ok := in2.(*ssa.Return); ok && len(ret.Results) == 1 {
+								cands = append(cands, cand{ret.Results[0], ret.Block(), -1})
+								expandP(ret.Results[0], depth+1)
+							}
+						})
+					}
+				}
+			}
+			expandP(c.Common().Args[0], 0)
+			for _, cd := range cands {
+				k, isK := an.ConstInt(cd.v)
+				if !isK || k != ka {
+					continue
+				}
+				rels := ctrlRels(cd.b)
+				if cd.e >= 0 && len(cd.b.Instrs) > 0 {
+					if iff, isIf := cd.b.Instrs[len(cd.b.Instrs)-1].(*ssa.If); isIf {
+						// the edge from the If block into the phi's block
+						for si := range cd.b.Succs {
+							if rel, ok := an.BranchRel(iff, si); ok && cd.b.Succs[si] != nil {
+								_ = rel
+							}
+						}
+					}
+				}
+				okZero := false
+				for _, cr := range rels {
+					for _, pair := range [][2]ssa.Value{{cr.L, cr.R}, {cr.R, cr.L}} {
+						if z, isZ := an.ConstInt(pair[1]); isZ && z == 0 && p.Derives(0, pair[0]).HasFieldNamed("Agent", "UpdateInterval") && (cr.Op == token.EQL || cr.Op == token.LEQ) {
+							okZero = true
+						}
+					}
+				}
+				if !okZero {
+					bad = append(bad, "the default keep-alive period is chosen at "+p.Pos(c.Pos())+" without UpdateInterval having been found zero: a configured interval is overridden by the default, or an unset one is used as it is")
+				}
+			}
 			// a one-shot timer (After, NewTimer) fires once: it keeps the cadence only when armed again on every turn of
 			// the loop; made once before the loop it yields a single keep-alive and then silence
 			if (f.Name() == "After" || f.Name() == "NewTimer") && !inLoop(c.(ssa.Instruction)) {
